@@ -949,4 +949,316 @@ Proof.
     rewrite removelast_last in Hin'. exact Hin'.
 Qed.
 
+(* every state reached by a history satisfies the per-call invariant, so the C10 theorems above apply to it *)
+Theorem cstream_reachable_SI P X cs calls k' pos' emitted' :
+  calls_ok calls -> krun P (k_new cs) X 0 calls [] = Some (k', pos', emitted') ->
+  exists cs0 chunks, SI P cs0 chunks k'.
+Proof.
+  intros Hok Hrun.
+  destruct (krun_inv P X calls 0 [] (k_new cs) [] cs [] k' pos' emitted' (HInv_new P X cs) Hok Hrun) as (dones & cs0 & chunks & HI).
+  exists cs0, chunks. apply (hi_si _ _ _ _ _ _ _ _ HI).
+Qed.
+
+Lemma krun_app P X : forall c1 c2 k pos emitted,
+  krun P k X pos (c1 ++ c2) emitted =
+  match krun P k X pos c1 emitted with
+  | Some (k1, pos1, em1) => krun P k1 X pos1 c2 em1
+  | None => None
+  end.
+Proof.
+  induction c1 as [|c t IH]; intros c2 k pos emitted; [reflexivity|].
+  cbn [app CStreamModel.krun]. destruct (ko_ret _); [apply IH|reflexivity].
+Qed.
+
+(* ---------- round trip, given that the block compressor's chunks decode ---------- *)
+Section Decode.
+Variable D : bytes -> option bytes.          (* decoder of one complete frame *)
+Variable Dp : bytes -> option bytes.         (* streaming decoder run on the prefix of a frame: what it regenerates *)
+(* the single assumed property of the block compressor (discharged per run by R on the real output) *)
+Hypothesis chunk_decodes :
+  forall cs fc pl chunks, complete chunks -> D (outs (cs_begin cs fc pl) chunks) = Some (chunks_in chunks).
+Hypothesis prefix_decodes :
+  forall cs fc pl chunks, nolast chunks -> Dp (outs (cs_begin cs fc pl) chunks) = Some (chunks_in chunks).
+
+Lemma done_frames_decode (L : list (CS * list (bytes * bool))) :
+  (forall f, In f L -> (snd f = [] \/ complete (snd f)) /\ begun f) ->
+  exists frames : list (bytes * bytes),
+    frames_in L = concat (map fst frames) /\ frames_out L = concat (map snd frames) /\
+    forall io, In io frames -> D (snd io) = Some (fst io).
+Proof.
+  induction L as [|f t IH]; intros H.
+  - exists []. repeat split; try reflexivity. intros io [].
+  - destruct IH as (fr & Hi & Ho & Hd); [intros g Hg; apply H; right; exact Hg|].
+    destruct (H f (or_introl eq_refl)) as [Hc Hb]. destruct f as [cs ch]. unfold begun in Hb. cbn [fst snd] in *.
+    destruct Hc as [->|Hc].
+    + exists fr. unfold frames_in, frames_out in *. cbn. split; [exact Hi|split; [exact Ho|exact Hd]].
+    + destruct Hb as [Hb|(cs' & fc & pl & ->)].
+      * subst ch. destruct Hc as (pre & c & E & _). destruct pre; discriminate.
+      * exists ((chunks_in ch, outs (cs_begin cs' fc pl) ch) :: fr).
+        unfold frames_in, frames_out in *. cbn. rewrite Hi, Ho. repeat split; try reflexivity.
+        intros io [<-|Hio]; [cbn; apply chunk_decodes; exact Hc|apply Hd; exact Hio].
+Qed.
+
+(* C02_stream_roundtrip: when a history ends with a completed frame, the emitted bytes are a concatenation of frames
+   each of which decodes to the corresponding part of the consumed input *)
+Theorem C02_stream_roundtrip P X cs calls k' pos' emitted' :
+  calls_ok calls ->
+  krun P (k_new cs) X 0 calls [] = Some (k', pos', emitted') ->
+  k_stage k' = KInit -> k_frameEnded k' = true -> k_held k' = [] ->
+  exists frames : list (bytes * bytes),
+    tk pos' X = concat (map fst frames) /\ emitted' = concat (map snd frames) /\
+    forall io, In io frames -> D (snd io) = Some (fst io).
+Proof.
+  intros Hok Hrun Hst Hfe Hh.
+  destruct (krun_inv P X calls 0 [] (k_new cs) [] cs [] k' pos' emitted' (HInv_new P X cs) Hok Hrun) as (dones & cs0 & chunks & HI).
+  destruct HI as [HS Hin Hpos Hout Hdone Hbeg].
+  pose proof (si_ki _ _ _ _ HS) as K.
+  pose proof (ki_init _ _ _ _ K Hst) as [Hop Hip].
+  pose proof (ki_ended _ _ _ _ K Hfe) as [Hc _].
+  destruct (done_frames_decode (dones ++ [(cs0, chunks)])) as (fr & Hi & Ho & Hd).
+  - intros f Hf. apply in_app_or in Hf. destruct Hf as [Hf|[<-|[]]]; [apply Hdone; exact Hf|].
+    split; [right; exact Hc|]. destruct Hbeg as [[_ Hb]|Hb]; [left; exact Hb|right; exact Hb].
+  - exists fr. split; [|split; [|exact Hd]].
+    + rewrite <- Hi, frames_in_snoc. cbn [snd]. rewrite Hin, Hip, Hh, !app_nil_r. reflexivity.
+    + rewrite <- Ho, frames_out_snoc. cbn [fst snd]. rewrite Hout, Hop, app_nil_r. reflexivity.
+Qed.
+
+(* C10 flush_complete_decodable: when the last call of a history is a flush that returned 0, everything consumed went
+   through the block compressor and everything it produced was emitted; so (first frame) the prefix decodes to the
+   consumed input *)
+Theorem flush_complete_decodable P X cs calls c k' pos' emitted' k1 pos1 em1 :
+  calls_ok (calls ++ [c]) -> kc_dir c = DirFlush ->
+  krun P (k_new cs) X 0 calls [] = Some (k1, pos1, em1) ->
+  ko_ret (kstep P (kc_fc c) k1 (tk (kc_n c) (dr pos1 X)) (kc_cap c) DirFlush) = Some 0 ->
+  krun P (k_new cs) X 0 (calls ++ [c]) [] = Some (k', pos', emitted') ->
+  k_stage k' = KLoad ->
+  exists dones cs0 chunks,
+    tk pos' X = frames_in dones ++ chunks_in chunks /\
+    emitted' = frames_out dones ++ outs cs0 chunks /\
+    nolast chunks /\
+    (dones = [] -> Dp emitted' = Some (tk pos' X)).
+Proof.
+  intros Hok Hdir Hrun1 Hret Hrun Hst.
+  assert (Hok1 : calls_ok calls) by (unfold calls_ok in *; apply Forall_app in Hok; tauto).
+  assert (Hc : 1 <= fc_maxBlock (kc_fc c)).
+  { unfold calls_ok in Hok. apply Forall_app in Hok. destruct Hok as [_ H]. inversion H; assumption. }
+  destruct (cstream_reachable_SI P X cs calls k1 pos1 em1 Hok1 Hrun1) as (cs1 & ch1 & S1).
+  pose proof (cstream_flush_complete P (kc_fc c) cs1 ch1 k1 (tk (kc_n c) (dr pos1 X)) (kc_cap c) S1 Hc Hret) as (Hip & Hop & Hld).
+  rewrite krun_app, Hrun1 in Hrun. cbn [CStreamModel.krun] in Hrun. rewrite Hdir, Hret in Hrun. inversion Hrun; subst k' pos' emitted'; clear Hrun.
+  specialize (Hld Hst). destruct Hld as [Hh _].
+  assert (Hrun' : krun P (k_new cs) X 0 (calls ++ [c]) [] =
+                  Some (ko_k (kstep P (kc_fc c) k1 (tk (kc_n c) (dr pos1 X)) (kc_cap c) DirFlush),
+                        Z.to_N (Z.of_N pos1 + ko_consumed (kstep P (kc_fc c) k1 (tk (kc_n c) (dr pos1 X)) (kc_cap c) DirFlush)),
+                        em1 ++ ko_out (kstep P (kc_fc c) k1 (tk (kc_n c) (dr pos1 X)) (kc_cap c) DirFlush))).
+  { rewrite krun_app, Hrun1. cbn [CStreamModel.krun]. rewrite Hdir, Hret. reflexivity. }
+  destruct (krun_inv P X _ 0 [] (k_new cs) [] cs [] _ _ _ (HInv_new P X cs) Hok Hrun') as (dones & cs0 & chunks & HI).
+  destruct HI as [HS Hin Hpos Hout Hdone Hbeg].
+  pose proof (si_ki _ _ _ _ HS) as K.
+  pose proof (ki_load _ _ _ _ K Hst) as [_ Hfe].
+  pose proof (ki_nolast _ _ _ _ K Hfe) as Hnl.
+  exists dones, cs0, chunks. split; [|split; [|split; [exact Hnl|]]].
+  - rewrite Hin, Hip, Hh, !app_nil_r. reflexivity.
+  - rewrite Hop, app_nil_r in Hout. symmetry. exact Hout.
+  - intros ->. rewrite Hop, app_nil_r in Hout. rewrite <- Hout, Hin, Hip, Hh. cbn [frames_in frames_out map concat app]. rewrite !app_nil_r.
+    destruct Hbeg as [[Hb _]|(cs' & fc & pl & ->)]; [congruence|]. apply prefix_decodes. exact Hnl.
+Qed.
+
+End Decode.
+
+(* ---------- C10: ZSTD_e_end terminates (buffered input) ---------- *)
+Definition ending (k : kstate) : N :=
+  match k_stage k with KFlush => if k_frameEnded k then 0 else 1 | _ => 1 end.
+Definition work_left (k : kstate) (R : bytes) : N := lenN R + lenN (k_inPend k) + ending k.
+
+Lemma complete_not_nolast l : complete l -> nolast l -> False.
+Proof.
+  intros (pre & c & -> & _) H. specialize (H (c, true)). cbn in H.
+  assert (In (c, true) (pre ++ [(c, true)])) by (apply in_or_app; right; left; reflexivity).
+  specialize (H H0). discriminate.
+Qed.
+
+Lemma complete_app_more l more : complete l -> complete (l ++ more) -> more = [].
+Proof.
+  intros (p0 & c0 & -> & _) (p & c & E & Hnl).
+  destruct more as [|x more] using rev_ind; [reflexivity|]. exfalso.
+  rewrite app_assoc in E. apply app_inj_tail in E. destruct E as [E _].
+  assert (Hin : In (c0, true) p) by (rewrite <- E; apply in_or_app; left; apply in_or_app; right; left; reflexivity).
+  specialize (Hnl _ Hin). discriminate.
+Qed.
+
+(* an unfinished end call strictly decreases (bytes not yet compressed + frame-not-closed flag, bytes waiting in outBuff) *)
+Lemma cstream_end_measure P fc cs0 chunks k R ocap r :
+  SI P cs0 chunks k -> 1 <= fc_maxBlock fc -> kp_stableIn P = false -> 1 <= ocap ->
+  let o := kstep P fc k R ocap DirEnd in
+  ko_ret o = Some r -> r <> 0 ->
+  let R' := dr (Z.to_N (ko_consumed o)) R in
+  (exists cs1 chunks1, SI P cs1 chunks1 (ko_k o)) /\
+  (work_left (ko_k o) R' < work_left k R \/
+   (work_left (ko_k o) R' = work_left k R /\ lenN (k_outPend (ko_k o)) < lenN (k_outPend k))).
+Proof.
+  intros S Hmb HSI Hcap o Hret Hr0 R'.
+  pose proof (kstep_spec P fc cs0 chunks k R ocap DirEnd S Hmb) as H.
+  cbv zeta in H. fold o in H. rewrite Hret in H.
+  destruct H as (cs1 & c1 & c2 & taken & rest & capleft & Hfr & S' & (more & Hmore & Hw) & Hsplit & Hcons & Hconv & (d & Hd & Hd') & Hout & Hr & Hstop).
+  split; [exists cs1, c2; exact S'|].
+  pose proof (si_held _ _ _ _ S HSI) as Hh. pose proof (si_held _ _ _ _ S' HSI) as Hh'.
+  rewrite Hh in *. rewrite Hh' in *. cbn [app] in *. rewrite app_nil_r in Hconv. change (lenN (@nil N)) with 0 in Hcons.
+  assert (HR' : R' = rest).
+  { unfold R'. rewrite Hcons. replace (Z.to_N (Z.of_N (lenN taken) - Z.of_N 0)) with (lenN taken) by lia.
+    rewrite Hsplit. apply dr_app_exact. }
+  (* only CS_full is compatible with a non-zero return on end *)
+  assert (Hfull : k_stage (ko_k o) = KFlush /\ capleft = 0).
+  { destruct Hstop as [H1 H2 H3|H1 H2 H3 H4|H1 H2 H3 H4|H1 H2 H3 H4 H5 H6|H1 H2 H3 H4]; try discriminate.
+    - split; assumption.
+    - exfalso. apply Hr0. destruct Hr as [Hr|(_ & Hd0 & _)]; [|discriminate].
+      pose proof (ki_out _ _ _ _ (si_ki _ _ _ _ S')) as Ho. rewrite H3 in Ho. cbn in Ho. lia. }
+  destruct Hfull as [Hst' Hcl]. subst capleft.
+  pose proof (si_ki _ _ _ _ S) as K. pose proof (si_ki _ _ _ _ S') as K'.
+  (* bytes not yet compressed *)
+  assert (Hbytes : lenN (chunks_in more) + lenN (k_inPend (ko_k o)) + lenN rest = lenN (k_inPend k) + lenN R).
+  { rewrite Hmore, chunks_in_app, <- app_assoc in Hconv. apply app_inv_head in Hconv.
+    apply (f_equal lenN) in Hconv. rewrite !lenN_app in Hconv. rewrite Hsplit, lenN_app. lia. }
+  (* the frame in progress *)
+  assert (Hend0 : ending k = 0 -> more = [] /\ ending (ko_k o) = 0).
+  { unfold ending. intros E0. destruct (k_stage k) eqn:Est; try discriminate. destruct (k_frameEnded k) eqn:Efe; try discriminate.
+    destruct Hfr as [(-> & -> & _)|(Est' & _)]; [|congruence].
+    pose proof (ki_ended _ _ _ _ K Efe) as [Hc _].
+    rewrite Hst'. destruct (k_frameEnded (ko_k o)) eqn:Efe'.
+    - split; [|reflexivity]. pose proof (ki_ended _ _ _ _ K' Efe') as [Hc' _]. rewrite Hmore in Hc'.
+      apply (complete_app_more _ _ Hc Hc').
+    - exfalso. pose proof (ki_nolast _ _ _ _ K' Efe') as Hnl. apply (complete_not_nolast _ Hc).
+      intros x Hx. apply Hnl. rewrite Hmore. apply in_or_app. left. exact Hx. }
+  assert (Hend_le : ending (ko_k o) <= 1) by (unfold ending; destruct (k_stage (ko_k o)); try lia; destruct (k_frameEnded (ko_k o)); lia).
+  assert (Hend_le0 : ending k <= 1) by (unfold ending; destruct (k_stage k); try lia; destruct (k_frameEnded k); lia).
+  unfold work_left. rewrite HR'.
+  destruct Hw as [Hm0|[Hm1|(c & Hm2)]].
+  - (* no new chunk: pure flushing *)
+    right. subst more. rewrite app_nil_r in Hmore. subst c2.
+    assert (Hd0 : d = []).
+    { rewrite <- (app_nil_r (outs cs1 c1)) in Hd at 1. apply app_inv_head in Hd. symmetry. exact Hd. }
+    subst d. rewrite app_nil_r in Hd'. cbn [chunks_in map concat lenN] in Hbytes. change (lenN (@nil N)) with 0 in Hbytes.
+    assert (Hq : lenN (ko_out o) + lenN (k_outPend (ko_k o)) = lenN (k_outPend k)).
+    { apply (f_equal lenN) in Hd'. rewrite lenN_app in Hd'. exact Hd'. }
+    split; [|lia].
+    (* the flag cannot go up without a new chunk *)
+    assert (ending (ko_k o) = ending k).
+    { destruct (N.eq_dec (ending k) 0) as [E0|E1]; [destruct (Hend0 E0) as [_ E]; lia|].
+      assert (Ek : ending k = 1) by lia. rewrite Ek.
+      (* stage' = KFlush; frameEnded' = true would make c1 complete while the frame was open before *)
+      unfold ending. rewrite Hst'. destruct (k_frameEnded (ko_k o)) eqn:Efe'; [|reflexivity]. exfalso.
+      pose proof (ki_ended _ _ _ _ K' Efe') as [Hc' _].
+      destruct Hfr as [(-> & -> & Hsame)|(Est & -> & _)].
+      - (* same frame, open before: frameEnded k = false or stage <> KFlush *)
+        unfold ending in Ek. destruct (k_stage k) eqn:Est.
+        + (* same frame from KInit is the deferred path, which keeps the stage *)
+          destruct (Hsame eq_refl) as [_ E]. congruence.
+        + pose proof (ki_load _ _ _ _ K Est) as [_ Efe]. apply (complete_not_nolast _ Hc'). apply (ki_nolast _ _ _ _ K Efe).
+        + destruct (k_frameEnded k) eqn:Efe; [discriminate|]. apply (complete_not_nolast _ Hc'). apply (ki_nolast _ _ _ _ K Efe).
+      - destruct Hc' as (pre & c & E & _). destruct pre; discriminate. }
+    lia.
+  - (* some input byte was compressed *)
+    left. assert (1 <= lenN (chunks_in more)).
+    { destruct (chunks_in more) eqn:E; [congruence|]. rewrite lenN_cons. lia. }
+    destruct (N.eq_dec (ending k) 0) as [E0|E1]; [destruct (Hend0 E0) as [-> _]; cbn in Hm1; congruence|]. lia.
+  - (* the closing chunk went out: the frame is now closed *)
+    left. destruct (N.eq_dec (ending k) 0) as [E0|E1]; [destruct (Hend0 E0) as [-> _]; destruct Hm2|].
+    assert (E' : ending (ko_k o) = 0).
+    { unfold ending. rewrite Hst'. destruct (k_frameEnded (ko_k o)) eqn:Efe'; [reflexivity|]. exfalso.
+      pose proof (ki_nolast _ _ _ _ K' Efe') as Hnl. specialize (Hnl (c, true)). cbn in Hnl.
+      assert (In (c, true) c2) by (rewrite Hmore; apply in_or_app; right; exact Hm2). specialize (Hnl H). discriminate. }
+    lia.
+Qed.
+
+Notation kend_run := (kend_run CS cs_begin compress_chunk).
+
+(* C10 cstream_terminates: with at least one byte of output room per call, driving ZSTD_e_end finishes (returns 0 or an
+   error) after finitely many calls, whatever the block compressor does *)
+Theorem cstream_terminates P fc caps :
+  1 <= fc_maxBlock fc -> kp_stableIn P = false -> (forall i, 1 <= caps i) ->
+  forall k R cs0 chunks i, SI P cs0 chunks k ->
+  exists n, match kend_run P fc k R caps i n with EMore _ _ => False | _ => True end.
+Proof.
+  intros Hmb HSI Hcaps.
+  assert (Hgen : forall a q k R cs0 chunks i, SI P cs0 chunks k ->
+            (N.to_nat (work_left k R) <= a)%nat -> (N.to_nat (lenN (k_outPend k)) <= q)%nat ->
+            exists n, match kend_run P fc k R caps i n with EMore _ _ => False | _ => True end).
+  { induction a as [a IHa] using lt_wf_ind. induction q as [q IHq] using lt_wf_ind.
+    intros k R cs0 chunks i HS0 Ha Hq.
+    destruct (ko_ret (kstep P fc k R (caps i) DirEnd)) as [r|] eqn:Er.
+    - destruct (N.eqb_spec r 0) as [->|Hr0].
+      + exists 1%nat. cbn [CStreamModel.kend_run]. rewrite Er. cbn. exact I.
+      + pose proof (cstream_end_measure P fc cs0 chunks k R (caps i) r HS0 Hmb HSI (Hcaps i) Er Hr0) as [(cs1 & c1 & S1) Hdec].
+        cbv zeta in Hdec.
+        set (k1 := ko_k (kstep P fc k R (caps i) DirEnd)) in *.
+        set (R1 := dr (Z.to_N (ko_consumed (kstep P fc k R (caps i) DirEnd))) R) in *.
+        assert (Hn : exists n, match kend_run P fc k1 R1 caps (S i) n with EMore _ _ => False | _ => True end).
+        { destruct Hdec as [Hlt|[Heq Hlt]].
+          - apply (IHa (N.to_nat (work_left k1 R1)) ltac:(lia) (N.to_nat (lenN (k_outPend k1))) k1 R1 cs1 c1 (S i) S1); lia.
+          - apply (IHq (N.to_nat (lenN (k_outPend k1))) ltac:(lia) k1 R1 cs1 c1 (S i) S1); lia. }
+        destruct Hn as [n Hn]. exists (S n). cbn [CStreamModel.kend_run]. rewrite Er.
+        destruct (N.eqb_spec r 0); [contradiction|]. exact Hn.
+    - exists 1%nat. cbn [CStreamModel.kend_run]. rewrite Er. exact I. }
+  intros k R cs0 chunks i HS0. eapply Hgen; eauto.
+Qed.
+
+
+(* ---------- C02 cstream_out_capacity_independent (per loop iteration) ----------
+   What the block compressor is handed (chunk, last flag, its state) and the whole input side of the buffering state
+   after a load/compress iteration do not depend on the output capacity or on what was already written, as long as
+   neither run fails.  PARTIAL: the ZSTD_e_end shortcut (inBuffPos = 0 and capacity >= compressBound(remaining input):
+   one ZSTD_compressEnd call on everything) is excluded by [noshort]; there the chunking does depend on the capacity. *)
+Definition in_side (g : gstate) :=
+  (k_cs (g_k g), k_inBuffPos (g_k g), k_inToCompress (g_k g), k_inBuffTarget (g_k g), k_inPend (g_k g),
+   k_frameEnded (g_k g), k_held (g_k g), g_in g, g_ip g).
+Definition in_side_res (r : gres CS) :=
+  match r with GErr _ => None | GCont g => Some (in_side g) | GStop g => Some (in_side g) end.
+
+Lemma g_flush_in_side (g : gstate) : in_side_res (g_flush g) = Some (in_side g).
+Proof.
+  destruct g as [k gin gip gout gcap]. unfold CStreamModel.g_flush. ksimp.
+  destruct (negb (k_outContent k - k_outFlushed k =? N.min gcap (k_outContent k - k_outFlushed k))); [reflexivity|].
+  destruct (k_frameEnded k) eqn:E; cbn; unfold in_side; ksimp; rewrite ?E; reflexivity.
+Qed.
+
+Lemma g_compress_capacity_independent P dir (k : kstate) gin gip o1 o2 c1 c2 :
+  let r1 := g_compress P dir (g_mk k gin gip o1 c1) in
+  let r2 := g_compress P dir (g_mk k gin gip o2 c2) in
+  in_side_res r1 <> None -> in_side_res r2 <> None -> in_side_res r1 = in_side_res r2.
+Proof.
+  cbv zeta. unfold CStreamModel.g_compress. ksimp.
+  destruct (compress_chunk _ _ _) as [cs' cout].
+  destruct (_ <? lenN cout); [intros H; exfalso; apply H; reflexivity|].
+  destruct (_ <? lenN cout); [intros _ H; exfalso; apply H; reflexivity|].
+  intros _ _.
+  repeat match goal with
+  | |- context [if ?b then _ else _] => destruct b eqn:?
+  end; rewrite ?g_flush_in_side; cbn [in_side_res]; unfold in_side; ksimp; reflexivity.
+Qed.
+
+Definition noshort (dir : directive) (k : kstate) : Prop := dir <> DirEnd \/ k_inBuffPos k <> 0.
+
+Theorem cstream_out_capacity_independent_partial P dir (k : kstate) gin gip o1 o2 c1 c2 :
+  noshort dir k ->
+  let r1 := g_load P dir (g_mk k gin gip o1 c1) in
+  let r2 := g_load P dir (g_mk k gin gip o2 c2) in
+  in_side_res r1 <> None -> in_side_res r2 <> None -> in_side_res r1 = in_side_res r2.
+Proof.
+  intros Hns. cbv zeta. unfold CStreamModel.g_load. ksimp.
+  assert (Hs : forall c, andb (match dir with DirEnd => true | _ => false end)
+                             (andb (orb (fits_bound c (lenN gin)) (kp_stableOut P)) (k_inBuffPos k =? 0)) = false).
+  { intros c. destruct Hns as [Hd|Hp].
+    - destruct dir; try reflexivity. congruence.
+    - apply N.eqb_neq in Hp. rewrite Hp, !andb_false_r. reflexivity. }
+  rewrite !Hs.
+  destruct (negb (kp_stableIn P)).
+  - destruct dir.
+    + match goal with |- context [if ?c then GStop _ else _] => destruct c end; [intros; cbn [in_side_res]; unfold in_side; ksimp; reflexivity|]. apply g_compress_capacity_independent.
+    + match goal with |- context [if ?c then GStop _ else _] => destruct c end; [intros; cbn [in_side_res]; unfold in_side; ksimp; reflexivity|]. apply g_compress_capacity_independent.
+    + apply g_compress_capacity_independent.
+  - destruct dir.
+    + match goal with |- context [if ?c then GStop _ else _] => destruct c end; [intros; cbn [in_side_res]; unfold in_side; ksimp; reflexivity|]. apply g_compress_capacity_independent.
+    + match goal with |- context [if ?c then GStop _ else _] => destruct c end; [intros; cbn [in_side_res]; unfold in_side; ksimp; reflexivity|]. apply g_compress_capacity_independent.
+    + apply g_compress_capacity_independent.
+Qed.
+
 End CProofs.
